@@ -273,8 +273,12 @@ class Endpoint:
             self.conn.connect()
 
     # -- driving
-    def feed(self, data):
-        return self.conn.feed(data)
+    def feed(self, data, settle=True):
+        """settle=False (asyncio only): the loop does not run between this read and the next
+        (several data_received calls in one loop iteration)"""
+        if settle or fwname() == "tx":
+            return self.conn.feed(data)
+        return self.conn.feed(data, False)
 
     def feed_all(self, segments):
         for s in segments:
